@@ -25,10 +25,17 @@
 (*                 "optimisation" of the seeded change                     *)
 (*                 C06-shared-scratch-race; another task's node of the     *)
 (*                 same infoset may overwrite the cell in between          *)
+(*   TryLock       TRUE: the mutex is taken with try_lock().unwrap() - a   *)
+(*                 worker that finds it busy panics instead of waiting     *)
+(*                 (the seeded change C05c-try-lock-on-sampled-infoset).   *)
+(*                 For the UPDATING player's infosets try_lock is safe     *)
+(*                 (Par.tla, NoLockConflict: perfect recall keeps them in  *)
+(*                 one task); an accumulator shared across tasks needs a   *)
+(*                 blocking lock.                                          *)
 (***************************************************************************)
 EXTENDS Naturals, Sequences, FiniteSets, TLC
 
-CONSTANTS UseMutex, SharedScratch
+CONSTANTS UseMutex, SharedScratch, TryLock
 
 \* ------------------------------------------------------------------ instances
 \* a task is a tree of decision nodes: [id, info, kids] with kids = sequence (one per action) of
@@ -70,8 +77,8 @@ RECURSIVE NodesOf(_)
 NodesOf(n) == {<<n.id, n.info, Len(n.kids)>>}
                 \cup UNION {IF n.kids[a].id = 0 THEN {} ELSE NodesOf(n.kids[a]) : a \in 1..Len(n.kids)}
 
-VARIABLES inst, pc, cumR, cumS, local, lock, scratch
-vars == <<inst, pc, cumR, cumS, local, lock, scratch>>
+VARIABLES inst, pc, cumR, cumS, local, lock, scratch, panicked
+vars == <<inst, pc, cumR, cumS, local, lock, scratch, panicked>>
 
 Tasks == Instances[inst]
 Workers == 1..Len(Tasks)
@@ -92,9 +99,19 @@ Init == /\ inst \in 1..Len(Instances)
         /\ lock = [i \in {x[2] : x \in UNION {NodesOf(Instances[inst][w]) : w \in 1..Len(Instances[inst])}} |-> 0]
         /\ scratch = [i \in {x[2] : x \in UNION {NodesOf(Instances[inst][w]) : w \in 1..Len(Instances[inst])}} |->
                         [a \in 1..2 |-> 0]]
+        /\ panicked = FALSE
+
+\* try_lock on a busy mutex: the worker panics (the pool propagates the panic out of solve)
+Panic(w) ==
+  /\ TryLock /\ ~panicked
+  /\ pc[w] <= Len(Prog(w))
+  /\ Prog(w)[pc[w]].op = "lock" /\ lock[Prog(w)[pc[w]].info] # 0
+  /\ panicked' = TRUE
+  /\ UNCHANGED <<inst, pc, cumR, cumS, local, lock, scratch>>
 
 Step(w) ==
-  /\ pc[w] <= Len(Prog(w))
+  /\ pc[w] <= Len(Prog(w)) /\ ~panicked
+  /\ UNCHANGED panicked
   /\ LET o == Prog(w)[pc[w]]
      IN /\ (o.op = "lock" => lock[o.info] = 0)
         /\ pc' = [pc EXCEPT ![w] = @ + 1]
@@ -109,17 +126,18 @@ Step(w) ==
                    ELSE cumR
   /\ UNCHANGED inst
 
-Next == \E w \in Workers : Step(w)
+Next == \E w \in Workers : Step(w) \/ Panic(w)
 Spec == Init /\ [][Next]_vars /\ \A w \in 1..4 : WF_vars(w \in Workers /\ Step(w))
 
-Done == \A w \in Workers : pc[w] > Len(Prog(w))
+Done == panicked \/ \A w \in Workers : pc[w] > Len(Prog(w))
+NoPanic == ~panicked
 
 \* every decision node contributed each token exactly once, attributed to its own utilities
 ExpectedTokens == UNION {{<<x[1], a, "u", x[1]>> : a \in 1..x[3]} \cup {<<x[1], a, "e", x[1]>> : a \in 1..x[3]} : x \in AllNodes}
 Expected == [t \in ExpectedTokens |-> 1]
-ParEqualsSeq == Done => cumR = Expected
+ParEqualsSeq == (Done /\ ~panicked) => cumR = Expected
 \* the average-strategy accumulator of every infoset received every node of the infoset
-NoLostStrategyUpdate == Done => \A i \in InfoIds : cumS[i] = {x[1] : x \in {y \in AllNodes : y[2] = i}}
+NoLostStrategyUpdate == (Done /\ ~panicked) => \A i \in InfoIds : cumS[i] = {x[1] : x \in {y \in AllNodes : y[2] = i}}
 \* mutual exclusion and no deadlock on the infoset mutexes
 LockFree == \A i \in InfoIds : lock[i] \in {0} \cup Workers
 \* the only state without a successor is the one in which every worker is done
